@@ -83,6 +83,9 @@ func (o columnPaginator[ResourceType, OptionsType]) BuildCursor(ret []ResourceTy
 	)
 	for _, t := range ret {
 		paginationID := findPaginationField(t, fields...)
+		if paginationID == nil {
+			return nil, NewErrInvalidQuery("property '%s' holds null values and cannot be used for pagination", paginationColumn)
+		}
 		if o.query.Bottom == nil {
 			o.query.Bottom = paginationID
 		}
@@ -117,7 +120,7 @@ func (o columnPaginator[ResourceType, OptionsType]) BuildCursor(ret []ResourceTy
 			cp.PaginationID = paginationIDs[len(paginationIDs)-1]
 			next = &cp
 		}
-		if o.query.PaginationID != nil {
+		if o.query.PaginationID != nil && o.query.Bottom != nil {
 			if (order == paginate.OrderAsc && o.query.PaginationID.Cmp(o.query.Bottom) > 0) ||
 				(order == paginate.OrderDesc && o.query.PaginationID.Cmp(o.query.Bottom) < 0) {
 				cp := o.query
@@ -213,8 +216,14 @@ func findPaginationField(v any, fields ...reflect.StructField) *big.Int {
 		case time.Time:
 			return big.NewInt(rawPaginationID.UTC().UnixMicro())
 		case *time.Time:
+			if rawPaginationID == nil {
+				return nil
+			}
 			return big.NewInt(rawPaginationID.UTC().UnixMicro())
 		case *libtime.Time:
+			if rawPaginationID == nil {
+				return nil
+			}
 			return big.NewInt(rawPaginationID.UTC().UnixMicro())
 		case libtime.Time:
 			return big.NewInt(rawPaginationID.UTC().UnixMicro())
@@ -231,14 +240,23 @@ func findPaginationField(v any, fields ...reflect.StructField) *big.Int {
 		case int:
 			return big.NewInt(int64(rawPaginationID))
 		case *int64:
+			if rawPaginationID == nil {
+				return nil
+			}
 			return big.NewInt(*rawPaginationID)
 		case *int:
+			if rawPaginationID == nil {
+				return nil
+			}
 			return big.NewInt(int64(*rawPaginationID))
 		case uint64:
 			v := new(big.Int)
 			v.SetUint64(rawPaginationID)
 			return v
 		case *uint64:
+			if rawPaginationID == nil {
+				return nil
+			}
 			v := new(big.Int)
 			v.SetUint64(*rawPaginationID)
 			return v
